@@ -88,10 +88,20 @@ MC_ASSUME = COMMON_ASSUME + [
     "gcc's OpenMP lowering (GOMP ABI: argument block copy, depend array layout)",
 ]
 
+MOCK_INC = ["harness/mock"]
 CHECKS["C03"] = {
-    "builds": sched_builds(["-DVF_EXEC_OMP"]),
+    "builds": sched_builds(["-DVF_EXEC_OMP"]) + sched_builds(["-DVF_EXEC_SPECX"], prefix="sdx", extra_inc=MOCK_INC)
+              + sched_builds(["-DVF_EXEC_STARPU"], prefix="sdu", extra_inc=MOCK_INC)
+              + [sched_builds(["-DVF_EXEC_SPECX_TSM"], prefix="sdxt", extra_inc=MOCK_INC)[0]]
+              + [sched_builds(["-DVF_EXEC_STARPU_TSM"], prefix="sdut", extra_inc=MOCK_INC)[0]],
     "runs": [{"driver": "sd_fast", "args": ["--mode", "C03"], "slices": 48, "tag": "fast"},
-             {"driver": "sd_trace", "args": ["--mode", "C03"], "slices": 48, "tag": "trace"}],
+             {"driver": "sd_trace", "args": ["--mode", "C03"], "slices": 48, "tag": "trace"},
+             {"driver": "sdx_fast", "args": ["--mode", "C03"], "slices": 48, "tag": "fast"},
+             {"driver": "sdx_trace", "args": ["--mode", "C03"], "slices": 48, "tag": "trace"},
+             {"driver": "sdu_fast", "args": ["--mode", "C03"], "slices": 48, "tag": "fast"},
+             {"driver": "sdu_trace", "args": ["--mode", "C03"], "slices": 48, "tag": "trace"},
+             {"driver": "sdxt_fast", "args": ["--mode", "C03"], "slices": 48, "tag": "fast"},
+             {"driver": "sdut_fast", "args": ["--mode", "C03"], "slices": 48, "tag": "fast"}],
     "level": "model_checking",
     "rule": "states = abstract states (tasks created, set of tasks executed) of the task graph the real executor submits for a driver "
             "tree; transitions = create / run(k) steps; every transition out of every reachable state is executed at least once by "
